@@ -771,7 +771,7 @@ def r_loadstore(name):
         al = m.group(1) == 'load'
         body = ''
         if al:
-            body += '  __CPROVER_assert(__CPROVER_POINTER_OFFSET(p) %% %d == 0, "aligned load: address not %d-byte aligned");\n' % (nb, nb)
+            body += '  __CPROVER_assert(AVM_ADDR_MOD(p) %% %d == 0, "aligned load: address not %d-byte aligned");\n' % (nb, nb)
         body += '  return *(const %s*)p;\n' % R
         pt = {'ps': 'const float*', 'pd': 'const double*'}.get(m.group(2), 'const void*')
         return Model(name, R, [(pt, 'p')], body, mem=True)
@@ -780,7 +780,7 @@ def r_loadstore(name):
         al = m.group(1) == 'store'
         body = ''
         if al:
-            body += '  __CPROVER_assert(__CPROVER_POINTER_OFFSET(p) %% %d == 0, "aligned store: address not %d-byte aligned");\n' % (nb, nb)
+            body += '  __CPROVER_assert(AVM_ADDR_MOD(p) %% %d == 0, "aligned store: address not %d-byte aligned");\n' % (nb, nb)
         body += '  *(%s*)p = a;\n' % R
         pt = {'ps': 'float*', 'pd': 'double*'}.get(m.group(2), 'void*')
         return Model(name, 'void', [(pt, 'p'), (R, 'a')], body, mem=True)
@@ -794,7 +794,7 @@ def r_loadstore(name):
         other = L(b, 'src') if mk == 'mask' else '(%s)0' % UT[b]
         body = ''
         if al:
-            body += '  __CPROVER_assert(__CPROVER_POINTER_OFFSET(p) %% %d == 0, "aligned masked load: address not %d-byte aligned");\n' % (nb, nb)
+            body += '  __CPROVER_assert(AVM_ADDR_MOD(p) %% %d == 0, "aligned masked load: address not %d-byte aligned");\n' % (nb, nb)
         body += '  %s r = {{0}};\n  for (int i = 0; i < %d; i++) AVM_S%d(r, i, (((uint64_t)k >> i) & 1) ? ((const %s*)p)[i] : %s);\n  return r;\n' % (R, n, b, UT[b], other)
         return Model(name, R, args, body, mem=True)
     m = re.match(r'^(storeu|store)_(epi8|epi16|epi32|epi64|ps|pd)$', rest)
@@ -804,7 +804,7 @@ def r_loadstore(name):
         al = m.group(1) == 'store'
         body = ''
         if al:
-            body += '  __CPROVER_assert(__CPROVER_POINTER_OFFSET(p) %% %d == 0, "aligned masked store: address not %d-byte aligned");\n' % (nb, nb)
+            body += '  __CPROVER_assert(AVM_ADDR_MOD(p) %% %d == 0, "aligned masked store: address not %d-byte aligned");\n' % (nb, nb)
         body += '  for (int i = 0; i < %d; i++) if (((uint64_t)k >> i) & 1) ((%s*)p)[i] = %s;\n' % (n, UT[b], L(b, 'a'))
         return Model(name, 'void', [('void*', 'p'), (ktype(n), 'k'), (R, 'a')], body, mem=True)
     # AVX/AVX2 VMASKMOV: element active iff the sign bit of the mask element is set; inactive elements are not accessed
